@@ -33,7 +33,7 @@ def _bad_docs(s):
 def sig_of(s):
     """Which ingredients of the property a scenario has (used to match open findings)."""
     bad = _bad_docs(s)
-    active, unresolvable_round, failures, changes = 0, False, False, 0
+    active, unresolvable_round, failures, changes, errkinds = 0, False, False, 0, set()
     for st in s["steps"][1:]:
         if st["ev"] == "Fetch" and st.get("out") == "good":
             changes += 1 if st["doc"] != active else 0
@@ -42,15 +42,20 @@ def sig_of(s):
             accts = set(st.get("accts", []))
             if accts & bad.get(active, set()) and accts - bad.get(active, set()):
                 unresolvable_round = True
-            if st.get("signfail") or st.get("relayfail") or st.get("nodefail"):
+            if st.get("signfail") or st.get("relayout") or st.get("nodeout"):
                 failures = True
-        elif st["ev"] in ("Fwd", "Fwd2") and st.get("relayfail"):
+                errkinds |= {x[1] for x in st.get("relayout", []) + st.get("nodeout", [])}
+                if st.get("signfail"):
+                    errkinds.add(st.get("signkind", "err"))
+        elif st["ev"] in ("Fwd", "Fwd2") and st.get("relayout"):
             failures = True
+            errkinds |= {x[1] for x in st["relayout"]}
         elif st["ev"] == "Prep" and any(no[1] != "ok" for no in st.get("nodeout", [])):
             failures = True
+            errkinds |= {no[1] for no in st["nodeout"] if no[1] != "ok"}
     return {"round_with_unresolvable_and_resolvable_validator": unresolvable_round,
             "has_failures": failures, "kinds": sorted({st["ev"] for st in s["steps"][1:]}),
-            "family": s.get("family", "?")}
+            "error_kinds": sorted(errkinds), "family": s.get("family", "?")}
 
 
 def nontrivial(s, rows):
@@ -67,11 +72,12 @@ def nontrivial(s, rows):
 
 def scenarios(tier):
     quick = tier == "quick"
-    n = 160 if quick else 2500
+    n = 160 if quick else 2000
     gen = lambda cfg, name, **kw: vf.tlc_scenarios(PID, "Scen_BlockRelay_C11", cfg, name=name, timeout=900, **kw)
     # (the five generator runs are independent: run side by side)
-    with ThreadPoolExecutor(max_workers=5) as ex:
-        f_sim = ex.submit(gen, "Scen_BlockRelay_C11.cfg", "scen", num=n, depth=12)
+    with ThreadPoolExecutor(max_workers=8) as ex:
+        # (simulated histories: a step that picks the kind and the failure palette of the next one goes before every step)
+        f_sim = ex.submit(gen, "Scen_BlockRelay_C11.cfg", "scen", num=n, depth=26)
         f_matrix = ex.submit(gen, "Scen_BlockRelay_C11_matrix.cfg" if quick else "Scen_BlockRelay_C11_matrix_big.cfg",
                              "scen-matrix", exhaustive=True)
         f_history = ex.submit(gen, "Scen_BlockRelay_C11_history.cfg" if quick else "Scen_BlockRelay_C11_history_big.cfg",
@@ -81,29 +87,61 @@ def scenarios(tier):
         # window of a held round)
         f_after = ex.submit(gen, "Scen_BlockRelay_C11_after.cfg", "scen-after", exhaustive=True)
         f_window = ex.submit(gen, "Scen_BlockRelay_C11_window.cfg", "scen-window", exhaustive=True)
+        # the KIND of a failure (ordinary / the client's own time-out = wraps context.DeadlineExceeded / wraps
+        # context.Canceled / ErrNotActive) and the POSITION of the failing node or relay, enumerated: every assignment
+        # of the three preparation nodes, of the relays and of the secondary nodes of a registration round, of the relays
+        # of a REST forwarding call - each followed by a healthy call of the same sort on the same instance
+        f_kinds = [ex.submit(gen, "Scen_BlockRelay_C11_%s.cfg" % k, "scen-" + k, exhaustive=True)
+                   for k in ("prepkinds", "regkinds", "fwdkinds")]
         sim, matrix, history = f_sim.result()[:n], f_matrix.result(), f_history.result()
         after, window = f_after.result(), f_window.result()
-    if quick:
-        rnd = random.Random(vf.seed())
-        rnd.shuffle(matrix)
-        matrix = matrix[:100]
-        # every failing relay set x document once, the rest sampled
-        rnd.shuffle(after)
+        prepkinds, regkinds, fwdkinds = [f.result() for f in f_kinds]
+    rnd = random.Random(vf.seed())
+
+    def single_first(hs, step, quota):
+        """Every history whose step has exactly one failing relay / node - each position x each kind - first, then a
+        sample of the others."""
+        hs = list(hs)
+        rnd.shuffle(hs)
         seen, must, rest = set(), [], []
-        for h in after:
-            k = (h[1]["doc"], tuple(h[2]["relayfail"]))
-            (rest if k in seen else must).append(h)
-            seen.add(k)
-        after = must + rest[:36]
-        rnd.shuffle(window)
-        window = window[:60]
-    fams = [("matrix", matrix), ("history", history), ("after", after), ("window", window), ("sim", sim)]
+        for h in hs:
+            st = h[step]
+            f = [("R", x[0], x[1]) for x in st.get("relayout", []) if x[1] != "ok"] + \
+                [("N", x[0], x[1]) for x in st.get("nodeout", []) if x[1] != "ok"]
+            if len(f) == 1 and f[0] not in seen:
+                seen.add(f[0])
+                must.append(h)
+            else:
+                rest.append(h)
+        return must + rest[:max(0, quota - len(must))]
+
+    rnd.shuffle(matrix)
+    matrix = matrix[:100 if quick else 1000]
+    # every failing relay set x document once, the rest sampled
+    rnd.shuffle(after)
+    seen, must, rest = set(), [], []
+    for h in after:
+        k = (h[1]["doc"], tuple(x[0] for x in h[2]["relayout"]))
+        (rest if k in seen else must).append(h)
+        seen.add(k)
+    after = must + rest[:36 if quick else 700]
+    rnd.shuffle(window)
+    window = window[:60 if quick else 576]
+    if quick:
+        prepkinds = single_first(prepkinds, 2, 90)
+        regkinds = single_first(regkinds, 2, 50)
+        fwdkinds = single_first(fwdkinds, 2, 24)
+    fams = [("matrix", matrix), ("history", history), ("after", after), ("window", window),
+            ("prepkinds", prepkinds), ("regkinds", regkinds), ("fwdkinds", fwdkinds), ("sim", sim)]
     out = []
     for fam, hs in fams:
         for h in hs:
             out.append({"sc": len(out) + 1, "family": fam, "steps": h})
     return out
 
+
+KIND_CONTROLS = [("prep_giveup", ("PreparationIsolated",)), ("reg_giveup", ("FailureIsolated",)),
+                 ("kindcancel", ("FailureIsolated", "PreparationIsolated", "ForwardedAll"))]
 
 SHARED_CANCEL = [("relays", "FailureIsolated"), ("nodes", "FailureIsolated"), ("prep", "PreparationIsolated"),
                  ("fwd", "ForwardedAll")]
@@ -120,7 +158,13 @@ def design_checks(v, tier):
     # calls, partial deliveries, every outcome) on short ones; and histories of three calls on one instance in full
     # detail, with the forwarding call that overlaps a round (second lane) and a fetch inside a round: every invariant,
     # and CallsProgress (a call in flight is never stuck, whatever the earlier calls on the instance did)
-    mcs = [("MC_BlockRelay_C11.cfg", 900), ("MC_BlockRelay_C11_fanout.cfg", 900), ("MC_BlockRelay_C11_calls.cfg", 900)]
+    # (these three with the alphabet of failures narrowed to one kind - ErrKinds <- ErrKindsOne: no action or invariant of
+    # the intended protocol tells the kinds apart); the FULL alphabet (ordinary / time-out / cancelled / not active, at any
+    # point of a call, any position among three preparation nodes) one fan-out at a time: MC_.._kinds_prep / _kinds_reg
+    mcs = [("MC_BlockRelay_C11.cfg", 900), ("MC_BlockRelay_C11_fanout.cfg", 900), ("MC_BlockRelay_C11_calls.cfg", 900),
+           ("MC_BlockRelay_C11_kinds_prep.cfg", 900), ("MC_BlockRelay_C11_kinds_reg.cfg", 900),
+           # the control models of the failure KIND under the alphabet the model used to have: they change nothing there
+           ("MC_BlockRelay_C11_kinds_plain.cfg", 900)]
     if tier == "thorough":
         mcs += [("MC_BlockRelay_C11_fanout3.cfg", 1500), ("MC_BlockRelay_C11_big.cfg", 1500), ("MC_BlockRelay_C11_big2.cfg", 1500)]
     mc_pool = ThreadPoolExecutor(max_workers=len(mcs))
@@ -130,7 +174,11 @@ def design_checks(v, tier):
     # instance between calls - a per-relay submission slot that is not given back after a relay's error makes a
     # later round get stuck (CallsProgress / RoundReturns), although every single round on a fresh instance is right;
     # with the slot given back on every path everything holds (thorough).
-    jobs = [("sharedcancel_" + a[0], 600) for a in SHARED_CANCEL] + [("slot_leaky", 900)]
+    # and - the KIND of a failure - designs that read "our own context is done" from the error value a relay / node
+    # returned (a preparation loop that abandons the nodes configured after one that timed out; a registration round that
+    # does not go on to the beacon nodes; a fan-out context cancelled by such a failure): right under the old alphabet
+    # (MC_.._kinds_plain passes, above), rejected under the full one.
+    jobs = [("sharedcancel_" + a[0], 600) for a in SHARED_CANCEL] + [("slot_leaky", 900)] + [(k[0], 600) for k in KIND_CONTROLS]
     if tier == "thorough":
         # the same with TLC's liveness checking (RoundReturns, F2Returns as temporal properties)
         jobs += [("live", 1500), ("slot_defer", 1500), ("slot_leaky_live", 1500)]
@@ -143,6 +191,12 @@ def design_checks(v, tier):
         if not (r["kind"] == "invariant" and r["violated"] == inv):
             raise vf.Broken("a %s fan-out with a shared context cancelled by the first failure no longer violates %s "
                             "in the model (%s %s)" % (name, inv, r["kind"], r["violated"]))
+    for name, invs in KIND_CONTROLS:
+        r = rs[name]
+        if not (r["kind"] == "invariant" and r["violated"] in invs):
+            raise vf.Broken("the control model %s (a failure of the time-out / cancelled kind taken for the caller's own context "
+                            "being done) is no longer rejected under the full alphabet of failure kinds (%s %s)"
+                            % (name, r["kind"], r["violated"]))
     r = rs["slot_leaky"]
     if not (r["kind"] == "invariant" and r["violated"] == "CallsProgressSlotLeaky"):
         raise vf.Broken("a per-relay slot that is kept after a relay's error no longer gets a later call stuck in the model "
@@ -162,7 +216,9 @@ def design_checks(v, tier):
         v.add_mc(f.result())
     mc_pool.shutdown()
     vf.log("model self-check: shared-cancel fan-outs violate FailureIsolated / PreparationIsolated / ForwardedAll; a leaked "
-           "per-relay slot violates RoundReturns (as they must)")
+           "per-relay slot violates RoundReturns; giving up on the other nodes / relays after a failure of the time-out or "
+           "cancelled kind violates PreparationIsolated / FailureIsolated under the full alphabet and nothing under the old one "
+           "(as they must)")
 
 
 def run(tier):
@@ -173,6 +229,9 @@ def run(tier):
         "two registration rounds never overlap (the service skips a round while one is in progress)",
         "relay and beacon-node fakes honour the call's context like an HTTP client; how the calls of one fan-out overlap is "
         "scripted per round (all at once / failing ones first, healthy ones in flight meanwhile / relay payload in batches)",
+        "a scripted-failing relay / beacon node / signing request / configuration source fails with the KIND of error the "
+        "scenario names, built as go-eth2-client / go-builder-client build theirs (a derived per-call context that really "
+        "times out or is cancelled while the caller's is live, wrapped with errors.Join + *url.Error, pkg/errors, %w or bare)",
         "configuration source, accounts, relays, beacon nodes and scheduler are scripted fakes at the services' interfaces; "
         "the signer is the real standard signer with BLS keys (every 4th scenario in quick, all in thorough) or a hashing one",
     ]
@@ -184,7 +243,10 @@ def run(tier):
     v.coverage["rule"] = ("input sequences defined by Scen_BlockRelay_C11.tla: every failure combination of one round per "
                           "document, every sequence of three configuration changes with a round after each, a round with "
                           "every failure combination followed by further rounds and a forwarding call on the same instance, "
-                          "a forwarding call and a fetch inside the window of a held round (enumerated; quick samples), "
+                          "a forwarding call and a fetch inside the window of a held round, every assignment of failure kinds "
+                          "(ordinary / time-out / cancelled / not active) to the three preparation nodes, to the relays and "
+                          "secondary nodes of a round and to the relays of a forwarding call, each followed by a healthy call "
+                          "(enumerated; quick samples, every single position x kind always), "
                           "and TLC-simulated histories of fetches / rounds (also held ones with such windows) / preparations "
                           "/ REST registrations (seeded), replayed on ONE real block relay and proposal preparer per history; non-trivial = "
                           "something was submitted and the scenario has a failure, an unresolvable validator or a second round; "
